@@ -12,7 +12,7 @@ CALLS = '2, 3; 2 meter, 3; 2 meter, 3 meter; 2 meter, 3 second; 2 meter^2, 3 met
 
 def bounds(tier):
     n = 3 if tier == 'quick' else 4
-    return {'bodies': 'every token sequence of 1..%d tokens that the real parser accepts as an expression (first token fixed per case, the rest symbolic) plus templates a o b o a, a o 2 o b, ( a o b ) o a, a o ( b o 2 ), - a o b, a o b ², a ² o b, if a o b then a else b, if a o 2 then a o b else b o a … with the operator positions symbolic over the 23 operators' % n,
+    return {'bodies': 'every token sequence of 1..%d tokens that the real parser accepts as an expression (first token fixed per case, the rest symbolic) plus templates a o b o a, a o 2 o b, ( a o b ) o a, a o ( b o 2 ), - a o b, a o b ², a ² o b, if a o b then a else b, if a o 2 then a o b else b o a, 2 o ( a o b ), 2 o a o b … with the operator positions symbolic over the 23 operators' % n,
             'call_sites': CALLS}
 
 def exhaustive(tier): return False
@@ -35,6 +35,8 @@ def plan(tier, rnd, units):
          [IF, x, 'o', x, THEN, x, ELSE, x], [IF, x, 'o', n2, THEN, x, 'o', x, ELSE, x, 'o', x], [x, 'o', x, 'o', n2], [LP, x, 'o', x, RP, UEXP, 'o', x]]
     if tier == 'quick':
         T = [T[0], T[2], T[3], T[5], T[6], T[7], T[10]]
+    # bodies whose types are pure inverses of products: 2 o ( a o b ), 2 o a o b
+    T += [[n2, 'o', LP, x, 'o', x, RP], [n2, 'o', x, 'o', x]]
     if tier == 'thorough':
         T += [[x, 'o', x, 'o', x, 'o', x], [LP, x, 'o', x, RP, 'o', LP, x, 'o', x, RP], [IF, x, 'o', x, THEN, x, 'o', n2, ELSE, x, 'o', x, 'o', n2]]
     OPK = [4, 5, 6, 7, 8, 9, 10, 11, 12, 13, 14, 15, 16, 17, 18, 19, 20, 21, 22, 23, 24, 25, 27]
